@@ -21,6 +21,10 @@ type Env struct {
 	pkg   *types.Package
 	local func(name string) (Value, bool)
 	nq    *int
+	// preferLocals: inside loop clauses a name denotes the current value of the local variable (parameters are
+	// mutable in Go); old(param) denotes the entry value.
+	preferLocals bool
+	bound        map[string]bool
 }
 
 func (ev *Env) with(cur *State) *Env {
@@ -36,6 +40,11 @@ func (ev *Env) bind(name string, v Value) *Env {
 		n.vars[k] = x
 	}
 	n.vars[name] = v
+	n.bound = make(map[string]bool, len(ev.bound)+1)
+	for k := range ev.bound {
+		n.bound[k] = true
+	}
+	n.bound[name] = true
 	return &n
 }
 
@@ -93,6 +102,13 @@ func (ev *Env) eval(e Expr) Value {
 	case *EStr:
 		return fx.stringConst(e.Val)
 	case *EIdent:
+		if ev.preferLocals && ev.local != nil {
+			if _, bound := ev.bound[e.Name]; !bound {
+				if v, ok := ev.local(e.Name); ok {
+					return v
+				}
+			}
+		}
 		if v, ok := ev.vars[e.Name]; ok {
 			return v
 		}
@@ -504,7 +520,14 @@ func (ev *Env) call(e *ECall) Value {
 		if ev.old == nil {
 			ev.errf("old() not available here")
 		}
-		return ev.with(ev.old).eval(e.Args[0])
+		if id, ok := e.Args[0].(*EIdent); ok && !ev.bound[id.Name] {
+			if v, ok := ev.vars[id.Name]; ok {
+				return v // entry value of a parameter
+			}
+		}
+		o := ev.with(ev.old)
+		o.preferLocals = false
+		return o.eval(e.Args[0])
 	case "len":
 		argn(1)
 		x := ev.eval(e.Args[0])
@@ -616,6 +639,19 @@ func (ev *Env) call(e *ECall) Value {
 			ev.errf("isType(iface, \"type\")")
 		}
 		return BoolV(Eq(x.Tag, Num(int64(fx.E.typeIDByName(s.Val)))))
+	case "deref":
+		argn(1)
+		p := ev.eval(e.Args[0])
+		pt, ok := under(p.Typ).(*types.Pointer)
+		if !ok {
+			ev.errf("deref of non-pointer")
+		}
+		return fx.loadAt(ev.cur, p.T, pt.Elem(), "M."+typeKey(pt.Elem()))
+	case "disjoint":
+		// disjoint(a, b): the capacity ranges of two byte slices do not overlap
+		argn(2)
+		a, b := ev.eval(e.Args[0]), ev.eval(e.Args[1])
+		return BoolV(Or(Le(Add(a.T, a.Cap), b.T), Le(Add(b.T, b.Cap), a.T)))
 	case "unchanged":
 		argn(1)
 		a := ev.eval(e.Args[0])
@@ -631,8 +667,13 @@ func (ev *Env) call(e *ECall) Value {
 		for k, v := range ev.vars {
 			n.vars[k] = v
 		}
+		n.bound = map[string]bool{}
+		for k := range ev.bound {
+			n.bound[k] = true
+		}
 		for i, name := range p.Params {
 			n.vars[name] = ev.eval(e.Args[i])
+			n.bound[name] = true
 		}
 		n.local = nil
 		return n.eval(p.Body)
